@@ -901,6 +901,13 @@ def shard_index_last(repo, col):
         zero = zero or txt.startswith("bytes(")
         length_ok = ("minishard_bits" in txt and "16" in txt) or \
             "header_byte_length" in txt
+        # ... or as long as the very buffer that is written at the end
+        if not length_ok and ok_single and last[0][0].args and \
+                first[0].args:
+            fin = norm(last[0][0].args[0])
+            raw = norm(first[0].args[0])
+            fin2 = norm(expand(last[0][0].args[0], single_defs(fn.node)))
+            length_ok = ("len(%s)" % fin) in raw or ("len(%s)" % fin2) in txt
         col.add(rule, fn, "first write(%s)" % txt, zero and length_ok,
                 "a zero placeholder of exactly the index length is written "
                 "first, so an interrupted shard lists no chunk"
@@ -1012,9 +1019,32 @@ def minishard_drain(repo, col):
         body_calls = [call_name(c) or "" for c in calls_in(drains[0].ast)]
         ok2 = any(b.endswith("self.append") for b in body_calls) and \
             any(b.endswith("self.flush_buffer") for b in body_calls)
-        col.add(rule, fn, "gap filled then buffer flushed", ok2,
-                "" if ok2 else "the drain loop does not fill the gap with an "
-                "empty entry and flush", node=drains[0].ast)
+        und2 = False
+        if not ok2 and any(b.endswith("self.flush_buffer")
+                           for b in body_calls):
+            # the gap may be filled by another method that advances the
+            # minishard's chunk counter (a vectorised append of empty entries)
+            ms_cls = repo.cls("sharded_file_accessor", "MiniShard")
+            appf_ = ms_cls.methods.get("append")
+            cnts = [norm(x.target) for x in stmts_of(appf_.node)
+                    if isinstance(x, ast.AugAssign)] if appf_ else []
+            for c_ in calls_in(drains[0].ast):
+                if isinstance(c_.func, ast.Attribute) and \
+                        isinstance(c_.func.value, ast.Name) and \
+                        c_.func.value.id == "self" and \
+                        c_.func.attr in ms_cls.methods and \
+                        c_.func.attr != "flush_buffer":
+                    h_ = ms_cls.methods[c_.func.attr]
+                    if any(isinstance(x, ast.AugAssign) and
+                           norm(x.target) in cnts for x in ast.walk(h_.node)):
+                        und2 = True
+        col.add(rule, fn, "gap filled then buffer flushed", ok2 or und2,
+                "" if ok2 else ("the gap is filled by a method other than "
+                                "append(); its entries are not checked here"
+                                if und2 else
+                                "the drain loop does not fill the gap with an "
+                                "empty entry and flush"), node=drains[0].ast,
+                undecided=und2 and not ok2)
         # the filler must be an empty entry at the next expected id
         fills = [c for c in calls_in(drains[0].ast)
                  if (call_name(c) or "").endswith("self.append")]
